@@ -69,9 +69,15 @@ def run(ctx, pid):
     # ------------------------------------------------------------------ 1. design level
     # (quick: the base configuration is checked by Live_ReadyQueue.cfg, which carries the invariants too)
     mc_cfgs = ["MC_RQ_2p.cfg", "MC_RQ_ovf.cfg"] if quick else \
-              ["MC_ReadyQueue.cfg", "MC_RQ_2p.cfg", "MC_RQ_ovf.cfg", "MC_RQ_3w.cfg", "MC_RQ_steal.cfg", "MC_RQ_t.cfg"]
-    f_mc = [pool.submit(ctx.tlc_must_hold, SPEC, c, module="MC_ReadyQueue", timeout=600 if quick else 2400,
-                        workers=2 if quick else 6) for c in mc_cfgs]
+              ["MC_ReadyQueue.cfg", "MC_RQ_2p.cfg", "MC_RQ_ovf.cfg", "MC_RQ_3w.cfg", "MC_RQ_steal.cfg"]
+    f_mc = [pool.submit(ctx.tlc_must_hold, SPEC, c, module="MC_ReadyQueue", timeout=600 if quick else 2400, workers=2)
+            for c in mc_cfgs]
+
+    def heavy():      # the large configurations one after the other (at most one heavy TLC run of this check at a time)
+        return [ctx.tlc_must_hold(SPEC, c, module="MC_ReadyQueue", timeout=3000, workers=6, heap="12g")
+                for c in ("MC_RQ_t.cfg", "MC_RQ_t3.cfg", "MC_RQ_t4.cfg")]
+    if not quick:
+        f_mc.append(pool.submit(heavy))
     f_live = pool.submit(ctx.tlc_must_hold, SPEC, "Live_ReadyQueue.cfg" if quick else "Live_RQ_t.cfg", module="MC_ReadyQueue",
                          timeout=600 if quick else 2400, workers=2)
     f_def = {d: pool.submit(ctx.tlc, SPEC, "Def_%s.cfg" % d, module="MC_ReadyQueue", timeout=600, expect_fail=True, workers=2)
@@ -95,7 +101,7 @@ def run(ctx, pid):
         nl, mism = monitor(ctx, lock, "stress", t, timeout=2400)
         return sts, t, nl, mism
 
-    f_stress = pool.submit(stress, 60 if quick else 1500, ctx.seed * 100)
+    f_stress = pool.submit(stress, 60 if quick else 500, ctx.seed * 100)
 
     # ------------------------------------------------------------------ 3. spec -> code: edge cover, puppet replay
     def replay(tag, nworkers, nsel):
@@ -155,9 +161,9 @@ def run(ctx, pid):
             cdrift = "op log rejected at line %d of %d (%s by w%s, n=%s)" % (conf.depth, st["op_lines"], row.get("op"), row.get("w"), row.get("n"))
         return beh, st, evs, nl, mism, cdrift
 
-    f_seq = pool.submit(seq, 15 if quick else 400, 2)
+    f_seq = pool.submit(seq, 15 if quick else 200, 2)
 
-    plans = [("q", 2, 700)] if quick else [("q", 2, 10 ** 9), ("a", 2, 6000), ("b", 3, 6000)]
+    plans = [("q", 2, 700)] if quick else [("q", 2, 10 ** 9), ("a", 2, 5000), ("b", 3, 5000)]
     f_replay = [pool.submit(replay, *p) for p in plans]
 
     # ------------------------------------------------------------------ collect
